@@ -8,9 +8,12 @@ From Util Require Import Common.Base Common.ListLemmas Routine.Model Routine.Pro
   Routine.ProofsMon.
 Close Scope N_scope.
 
-(* nothing but API calls and retry-timer callbacks can start an instance, change the routine or the context *)
+(* nothing but API calls and retry-timer callbacks can start an instance or change the routine; the context the container
+   holds changes otherwise only in that a WaitExited section forgets a root context that its owner has cancelled
+   (passive events include the owner's cancellation of a root context itself) *)
 Theorem c14_passive_events_never_start : forall s e, passive e = true ->
-  ninst (step repaired s e) = ninst s /\ routine (step repaired s e) = routine s /\ kctx (step repaired s e) = kctx s.
+  ninst (step repaired s e) = ninst s /\ routine (step repaired s e) = routine s /\
+  (kctx (step repaired s e) = kctx s \/ (kctx (step repaired s e) = 0 /\ root_dead s (kctx s) = true)).
 Proof. exact passive_no_spawn. Qed.
 Print Assumptions c14_passive_events_never_start.
 
@@ -99,8 +102,9 @@ Print Assumptions c14_exit_callbacks_once_per_current_exit.
 Theorem c14_waitexited_reports_current_record : forall s a w o,
   nth_error (waiters s) a = Some w -> wpcv w = WGate ->
   wpcv (nth a (waiters (wait_section s a)) waiter0) = WRet o ->
-  (exists r, routine s = Some r /\ kctx s <> 0 /\ (rexited (getr s r) = true \/ rsucc (getr s r) = true) /\ o = rerr (getr s r))
-  \/ (wrinr w = true /\ (routine s = None \/ kctx s = 0) /\ o = ONil)
+  (exists r, routine s = Some r /\ kctx s <> 0 /\ root_dead s (kctx s) = false /\
+             (rexited (getr s r) = true \/ rsucc (getr s r) = true) /\ o = rerr (getr s r))
+  \/ (wrinr w = true /\ (routine s = None \/ kctx s = 0 \/ root_dead s (kctx s) = true) /\ o = ONil)
   \/ (wcanc w = true /\ o = OCanc).
 Proof. exact wait_section_result. Qed.
 Print Assumptions c14_waitexited_reports_current_record.
@@ -116,6 +120,18 @@ Example c14_example_success_final :
   let s := run repaired (init false 1 1 (Some [100]%N))
              [ESetCtx 1 false; ESetRoutine 1; EProceed 0 true; EReturn 0 ONil; EBook 0; ESetCtx 2 true; EAdvance 1000] in
   length (insts s) = 1 /\ rsucc (getr s 0) = true /\ bo s = Some ([100]%N, 0).
+Proof. vm_compute. repeat split; reflexivity. Qed.
+
+(* observation recorded while modelling the owner's cancellation of a root context (the property text does not speak
+   about it): the retry callback tests `r.r.ctx != nil` but not `Err()`, so as long as no entry point has forgotten the
+   cancelled context every back-off interval starts another instance, born cancelled, which exits with Canceled at
+   once, is reported to the exit callbacks and arms the next retry *)
+Example c14_example_retry_under_cancelled_root :
+  let s := run repaired (init false 1 1 (Some [100; 100]%N))
+             [ESetCtx 1 false; ESetRoutine 1; EProceed 0 true; EReturn 0 (OErr 0); EBook 0; ECancelRoot 1; EAdvance 100; ETimerCb 0;
+              EProceed 1 false; EBook 1] in
+  length (insts s) = 2 /\ icanc (geti s 1) = true /\ cblog s = [OErr 0; OCanc] /\ bo s = Some ([100; 100]%N, 2) /\
+  map tst (timers s) = [TRan; TArmed].
 Proof. vm_compute. repeat split; reflexivity. Qed.
 
 (* The monitors (what is evaluated on implementation traces) accept the model's own behaviour - BOUNDED: every
